@@ -195,7 +195,7 @@ def observe(fd, ref, what, nc, light=False):
 
 
 def ops_alphabet(th):
-  bounds = [None] + U
+  bounds = [None, b'', OUTSIDE] + U  # b'' is a legal (smallest) bound, OUTSIDE lies above every id
   ops = [('slice', s, e) for s in bounds for e in bounds if not (s is None and e is None)]
   ops += [('subset', k) for k in SUBSETS]
   ops += [('pc', 1), ('pc', 2), ('pb', 3), ('pb', 4)]
